@@ -431,7 +431,7 @@ class State(QOperation):
         """
         atol = Settings.get_atol() if atol is None else atol
         tr = np.trace(self.to_density_matrix_with_sparsity())
-        return np.isclose(tr, 1, atol=atol)
+        return np.isclose(tr, 1, atol=atol, rtol=0.0)
 
     def is_hermitian(self, atol: float = None) -> bool:
         """returns whether density matrix is Hermitian.
